@@ -1,4 +1,5 @@
 import MgpuModel.Util
+import MgpuModel.C10Buddy
 /-!
 # C10 — device memory management (driver/internal allocator, Distribute, Context.buffers)
 
@@ -554,6 +555,8 @@ def handle (line : String) : String :=
   | [] => "bad"
   | first :: rest =>
     let t := words first
+    -- `c10 buddy …` lines: the buddy allocator's own model (MgpuModel/C10Buddy.lean)
+    if t.getD 1 "" == "buddy" then Buddy.handle line else
     match kvNat? t "l2", kvNat? t "cpu", (kv? t "gpus").bind idList?, kvNat? t "v" with
     | some l2, some cpu, some gpus, some v =>
       let ps := 2 ^ l2
